@@ -48,19 +48,25 @@ pub fn one_run(ctx: &Ctx, out: &mut Outcome, run_seed: u64) {
     if r.chance(1, 2) {
         cfg.drain = DrainMode::AfterEveryArrival;
     }
+    let flood = r.chance(1, 10);
+    if flood {
+        crate::props::c01::flood_cfg(&mut cfg, &mut r);
+        out.count("flood_runs");
+    }
     let kinds = match r.below(3) {
         0 => vec![Kind::ReliableUnordered],
         1 => vec![Kind::ReliableOrdered, Kind::ReliableUnordered],
         _ => vec![Kind::ReliableOrdered, Kind::ReliableUnordered, Kind::Unreliable],
     };
     let plan = Plan {
-        fault_ticks: r.range(5, if ctx.thorough() { 200 } else { 80 }),
+        fault_ticks: if flood { r.range(15, 50) } else { r.range(5, if ctx.thorough() { 200 } else { 80 }) },
         rate_x100: *r.pick(&[30u64, 100, 250, 600]),
-        max_msgs: r.range(20, 400),
+        max_msgs: if flood { r.range(2500, 12_000) } else { r.range(20, 400) },
         kinds,
         allow_large: r.chance(1, 6),
         tail_ticks: r.range(0, 60),
         liveness: true,
+        flood,
         max_len: 400_000,
     };
     let mut mons: Vec<Box<dyn Monitor>> = vec![
